@@ -4,6 +4,10 @@ import json, os
 ROOT = os.path.dirname(os.path.dirname(os.path.abspath(__file__)))
 props = [json.loads(l) for l in open(os.path.join(ROOT, "properties.jsonl"))]
 CLAIMED = {
+ "C05": dict(
+   text="Coq theorems, all sizes: the composition scaler-with-fitted-statistics then projection on the components commutes with row concatenation and with row selection; the rotator's transform tail (divide, rotate, re-sort, re-scale, re-sign) commutes with row concatenation in both the sorted and unsorted state; dropping entirely missing samples commutes with concatenation. Source tie (regenerated on every run): every transform/predict implementation back-transforms scores through the unseen-data path, on which no transformer re-indexes to the fit samples and the MultiIndex is restored from the transform call. Oracle on the implementation: own sample labels, no spurious NaN, EVERY split point of the new data, subsets of the training samples, two sample dimensions and a sample MultiIndex, for single-set, rotated, cross-set and multi-set models.",
+   note="Trusted: Coq kernel; translator T7unseen/T4; xarray concat/sel; SparsePCA, POP and cross-set transforms are covered by the API oracle, not by a theorem.",
+   technique="Coq proof (row-wise maps commute with vstack/selection) + source-regenerated call-path table + exhaustive split-point oracle", ref="4/C05"),
  "C02": dict(
    text="Coq theorems on the index arithmetic of stacking, for any number of dimensions, any sizes and any dimension order: row-major flatten/unflatten are mutually inverse (mixed radix); stacking along any permutation of the dimensions (sample dimensions first) and unstacking returns at every in-range multi-index the value the input holds there; concatenating per-item feature blocks and splitting by the recorded sizes returns every block (lists/Datasets, any number of items). Correspondence (exact, integer-valued data): the stacking model vs the Preprocessor's 2-D matrix on every enumerated layout; oracle: container type, variable names, dimensions, label sets and values at every label after the round trip, dims of components/scores/reconstructions through EOF. xarray's own primitives are modelled, not verified. Known findings (Datasets with different dimension sets, list items with different auxiliary coordinates, Dataset with a MultiIndex sample dimension) are listed in known_findings.json.",
    note="Trusted: Coq kernel; xarray stack/unstack/to_stacked_array semantics as modelled (row-major product order, variable-major concatenation) and validated by enumeration at sizes 2-3; duplicate-free coordinates assumed. Reconstruction dimension ORDER through a model is not constrained (values are compared by label).",
